@@ -49,6 +49,12 @@ def resume_vs_completion(ctx, execs):
             # completes in between, and the branch reaches its READY operation as an orphan
             items.append((p, {"seed": rng.randrange(1 << 30), "max_inv": 12, "api_latency": 0.05,
                               "slow_after": {"start": {"ev": "BodyStart", "i": 2}, "nth": 2}}))
+    # a surviving branch is blocked in the SYNCHRONOUS START of an at-most-once step (0.3 s call) while the call completes
+    for d in [round(0.05 * k, 2) for k in range(0, 30, (3 if ctx.quick else 1))]:
+        p = {"nodes": [{"k": "par", "cfg": {"min": 1}, "branches": [[{"k": "step", "dur": d}],
+                                                                     [{"k": "step", "dur": 0.2}, {"k": "step", "sem": "AMO"}, {"k": "step"}]]},
+                       {"k": "step", "dur": 1.5}, {"k": "step"}]}
+        items.append((p, {"seed": rng.randrange(1 << 30), "max_inv": 12, "api_latency": 0.3}))
     out = run_campaign(ctx, items)
     for e in out:
         c10(ctx, e)
@@ -59,7 +65,8 @@ def resume_vs_completion(ctx, execs):
 def run(ctx):
     run_conc(ctx, invs=STRICT["C10"], oracle_fns=[c10, c10_no_function_under_completed_context],
              programs=["m02_first_successful", "m03_failure", "m07_min_with_failure", "m08_nested", "m11_tolerance", "m01_all_ok",
-                       "m16_ctx_fails_with_straggler", "m17_reinvoke_early_completion"],
+                       "m16_ctx_fails_with_straggler", "m17_reinvoke_early_completion", "m20_reinvoke_nested_straggler",
+                       "m21_oversized_early_straggler", "m22_oversized_early_parked", "m23_oversized_early_failing_straggler"],
              post=resume_vs_completion,
              n_scen=(8, 20),
              extra_rule="Early-completion configurations with surviving branches inside a user function (function durations), between "
